@@ -3,7 +3,7 @@
    `DL.abs d = d.toVal d.root : JD.Val`, over the layout invariant `DL.WFG` (AJ/Lemmas/DocInv.lean).
    `absWith d F l x` is the abstract tree of `d` with the value at location `l` replaced by `x` and nothing else changed.
    C14 (how a string is stored is unobservable) is `C14.kind_irrelevant` at the end. -/
-import AJ.Lemmas.DocOps
+import AJ.Lemmas.DocPair
 namespace C04
 open DL
 open JD (Byte Val)
@@ -19,6 +19,30 @@ theorem appendOne_refines {d : Doc} {F : Forest} {l : Loc} {h t id : Nat} (w : W
     WFG (d.appendOne l id) (replaceAt F l ((layoutAt F l).snoc none id)) ∧
     ∃ xs, d.toVal (d.get l) = .arr xs ∧ abs (d.appendOne l id) = absWith d F l (.arr (xs ++ [.null])) :=
   appendOne_spec w hl hv hid hidF hlt hlive
+
+/-- `appendOne_refines` for the full invariant `WF = WFG ∧ StrOK` -/
+theorem appendOne_wf {d : Doc} {F : Forest} {l : Loc} {h t id : Nat} (w : WFG d F) (hs : StrOK d (d.strRefs F))
+    (hl : isLoc F l) (hv : d.get l = .arr h t) (hid : d.cell id = .var .null d.null) (hidF : id ∉ F.ids)
+    (hlt : id < d.null) (hlive : PL.live d.g d.pl id) :
+    WFG (d.appendOne l id) (replaceAt F l ((layoutAt F l).snoc none id)) ∧
+    StrOK (d.appendOne l id) ((d.appendOne l id).strRefs (replaceAt F l ((layoutAt F l).snoc none id))) ∧
+    ∃ xs, d.toVal (d.get l) = .arr xs ∧ abs (d.appendOne l id) = absWith d F l (.arr (xs ++ [.null])) :=
+  ⟨(appendOne_spec w hl hv hid hidF hlt hlive).1, appendOne_strOK w hs hl hv hid hidF hlt hlive,
+    (appendOne_spec w hl hv hid hidF hlt hlive).2⟩
+
+/-! ## 2. object member append -/
+
+/-- `appendPair` of a fresh key slot `k` (a variant cell holding a string `kv`, linked or copied) and a fresh value slot
+    `v` (holding null) to the object stored at a reachable location `l`: the invariant is kept and the abstract tree is
+    the old one in which the object `ms` at `l` became `ms ++ [(key bytes, null)]`; nothing else changed. -/
+theorem appendPair_refines {d : Doc} {F : Forest} {l : Loc} {h t k v nk : Nat} {kv : VData} (w : WFG d F)
+    (hl : isLoc F l) (hv : d.get l = .obj h t) (hk : d.cell k = .var kv nk) (hkey : isKey kv)
+    (hvc : d.cell v = .var .null d.null) (hkv : k ≠ v) (hkF : k ∉ F.ids) (hvF : v ∉ F.ids) (hklt : k < d.null)
+    (hvlt : v < d.null) (hklive : PL.live d.g d.pl k) (hvlive : PL.live d.g d.pl v) :
+    WFG (d.appendPair l k v) (replaceAt F l ((layoutAt F l).snoc (some k) v)) ∧
+    ∃ ms, d.toVal (d.get l) = .obj ms ∧
+      abs (d.appendPair l k v) = absWith d F l (.obj (ms ++ [(keyOfV d kv, .null)])) :=
+  appendPair_spec w hl hv hk hkey hvc hkv hkF hvF hklt hvlt hklive hvlive
 
 /-! ## 5. storing scalars and strings -/
 
@@ -139,6 +163,103 @@ theorem set_scalar {d : Doc} {F : Forest} {l : Loc} {a : Arg} (w : WFG d F) (hl 
       refine ⟨h1, ?_⟩
       rw [h2]; simp only [Doc.scalar, h3, argVal]
 
+/-- string-table half of `set_scalar`: the reference-count invariant is kept (a copied string accounts for one more
+    reference to its node, whether the node is new or shared) -/
+theorem set_scalar_str {d : Doc} {F : Forest} {l : Loc} {a : Arg} (w : WFG d F) (hs : StrOK d (d.strRefs F))
+    (hl : isLoc F l) (hnull : d.get l = .null) (gok : PL.GeoOK d.g) (hok : (d.setArg l a).1 = true) :
+    StrOK (d.setArg l a).2 ((d.setArg l a).2.strRefs F) := by
+  have hold : strOfV (d.get l) = [] := by rw [hnull]; rfl
+  have plain : ∀ v', strOfV v' = [] → StrOK (d.set l v') ((d.set l v').strRefs F) := fun v' hv' =>
+    set_gen_strOK w hl hold rfl (fun _ _ => rfl) (by rw [hv']; exact hs)
+  have ext : ∀ (p : Int) (e : Nat) (d1 : Doc) v', d.allocExt p = (some e, d1) → strOfV v' = [] →
+      StrOK (d1.set l v') ((d1.set l v').strRefs F) := fun p e d1 v' hal hv' => by
+    obtain ⟨_, hroot, _, _, hco, _, _, hnl, _⟩ := allocExt_spec w gok hal
+    obtain ⟨h1, h2⟩ := allocExt_str hal
+    exact set_gen_strOK w hl hold hroot (fun j hj => hco j (fun e' => hnl (e' ▸ w.live j hj)))
+      (by rw [hv']; exact StrOK_congr h1 h2 hs)
+  have copied : ∀ (s : List Byte) (n : Nat) (d1 : Doc) v', d.saveString s = (some n, d1) → strOfV v' = [n] →
+      StrOK (d1.set l v') ((d1.set l v').strRefs F) := fun s n d1 v' hal hv' => by
+    obtain ⟨_, hroot, hcells, _⟩ := saveString_spec hs.ids_nodup hs.ids_lt hal
+    exact set_gen_strOK w hl hold hroot (fun j _ => by simp only [Doc.cell, hcells])
+      (by rw [hv']; exact saveString_strOK hs hal)
+  cases a with
+  | null => exact hs
+  | bool b => exact plain _ rfl
+  | f32 b => exact plain _ rfl
+  | strLinked s => exact plain _ rfl
+  | sint v =>
+    simp only [Doc.setArg] at hok ⊢
+    split
+    · exact plain _ rfl
+    · rename_i hr
+      rw [if_neg hr] at hok
+      generalize hal : d.allocExt v = r at hok ⊢
+      obtain ⟨m, d1⟩ := r
+      cases m with
+      | none => simp at hok
+      | some e => exact ext _ e d1 _ hal rfl
+  | uint v =>
+    simp only [Doc.setArg] at hok ⊢
+    split
+    · exact plain _ rfl
+    · rename_i hr
+      rw [if_neg hr] at hok
+      generalize hal : d.allocExt v = r at hok ⊢
+      obtain ⟨m, d1⟩ := r
+      cases m with
+      | none => simp at hok
+      | some e => exact ext _ e d1 _ hal rfl
+  | f64 b =>
+    simp only [Doc.setArg] at hok ⊢
+    split
+    · exact plain (.f32 _) rfl
+    · generalize hal : d.allocExt b = r at hok ⊢
+      obtain ⟨m, d1⟩ := r
+      cases m with
+      | none => simp_all
+      | some e => exact ext _ e d1 _ hal rfl
+  | strCopied s =>
+    simp only [Doc.setArg] at hok ⊢
+    generalize hal : d.saveString s = r at hok ⊢
+    obtain ⟨m, d1⟩ := r
+    cases m with
+    | none =>
+      exfalso
+      simp only [Doc.saveString] at hal
+      split at hal
+      · simp at hal
+      · generalize d.pl.alloc (s.length + d.strOverhead) = q at hal
+        obtain ⟨ok, pl⟩ := q
+        simp only at hal
+        split at hal
+        · simp only [Prod.mk.injEq, true_and] at hal; subst hal; simp at hok
+        · simp at hal
+    | some n => exact copied s n d1 _ hal rfl
+  | raw s =>
+    simp only [Doc.setArg] at hok ⊢
+    generalize hal : d.saveString s = r at hok ⊢
+    obtain ⟨m, d1⟩ := r
+    cases m with
+    | none =>
+      exfalso
+      simp only [Doc.saveString] at hal
+      split at hal
+      · simp at hal
+      · generalize d.pl.alloc (s.length + d.strOverhead) = q at hal
+        obtain ⟨ok, pl⟩ := q
+        simp only at hal
+        split at hal
+        · simp only [Prod.mk.injEq, true_and] at hal; subst hal; simp at hok
+        · simp at hal
+    | some n => exact copied s n d1 _ hal rfl
+
+/-- `set_scalar` for the full invariant `WF = WFG ∧ StrOK` -/
+theorem set_scalar_wf {d : Doc} {F : Forest} {l : Loc} {a : Arg} (w : WFG d F) (hs : StrOK d (d.strRefs F))
+    (hl : isLoc F l) (hnull : d.get l = .null) (gok : PL.GeoOK d.g) (hok : (d.setArg l a).1 = true) :
+    WFG (d.setArg l a).2 F ∧ StrOK (d.setArg l a).2 ((d.setArg l a).2.strRefs F) ∧
+    abs (d.setArg l a).2 = absWith d F l (argVal a) :=
+  ⟨(set_scalar w hl hnull gok hs hok).1, set_scalar_str w hs hl hnull gok hok, (set_scalar w hl hnull gok hs hok).2⟩
+
 /-! ## 4. clearing a location that holds a scalar or a string -/
 
 /-- `clearV` on a reachable location holding a scalar or a string (linked, or copied and reference-counted): the
@@ -157,6 +278,28 @@ theorem clearV_scalar_frame {d : Doc} {F : Forest} {l l' : Loc} (w : WFG d F) (h
     (hnotin : ∀ i, l = .slot i → i ∉ (layoutAt F l').ids) :
     (d.clearV l).toVal ((d.clearV l).get l') = d.toVal (d.get l') :=
   DL.clearV_scalar_frame w hs hl hsc hl' hne hnotin
+
+/-! ## 4b. clearing any location, in particular a collection -/
+
+/-- `VariantData::clear` on ANY reachable location `l` (scalar, string, array or object, arbitrarily nested): the
+    invariant `WF` (cells and string table) is kept with the layout below `l` removed, the abstract tree is the old one
+    with the value at `l` replaced by null (`absWith`: nothing else changed), and every slot of the cleared subtree has
+    been released to the pool (it is no longer live). -/
+theorem clearV_collection {d : Doc} {F : Forest} {l : Loc} (w : WFG d F) (hs : StrOK d (d.strRefs F)) (hl : isLoc F l) :
+    WFG (d.clearV l) (replaceAt F l .nil) ∧
+    StrOK (d.clearV l) ((d.clearV l).strRefs (replaceAt F l .nil)) ∧
+    abs (d.clearV l) = absWith d F l .null ∧
+    (∀ x ∈ (layoutAt F l).ids, ¬ PL.live (d.clearV l).g (d.clearV l).pl x) :=
+  clearV_spec w hs hl
+
+/-- FRAME for `clearV` on any location `l`: every other reachable location `l'` that lies outside the cleared subtree
+    and whose own subtree does not contain `l` (nor anything below it) designates exactly the same value afterwards. -/
+theorem clearV_frame {d : Doc} {F : Forest} {l l' : Loc} (w : WFG d F) (hs : StrOK d (d.strRefs F))
+    (hl : isLoc F l) (hl' : isLoc F l') (hne : l' ≠ l)
+    (hout : ∀ j, l' = .slot j → j ∉ (layoutAt F l).ids)
+    (hdisj : ∀ x ∈ (layoutAt F l').ids, x ∉ (layoutAt F l).ids ∧ Loc.slot x ≠ l) :
+    (d.clearV l).toVal ((d.clearV l).get l') = d.toVal (d.get l') :=
+  clearV_frame_spec w hs hl hl' hne hout hdisj
 
 /-! ## 6. read-only operations -/
 
@@ -178,6 +321,14 @@ theorem findKey_first {d : Doc} {F : Forest} {l : Loc} {h t : Nat} (w : WFG d F)
     ∃ ms, d.toVal (d.get l) = .obj ms ∧
       ((d.findKey l key).map (fun p => d.toVal (d.get (.slot p.2)))) = (ms.find? (fun m => m.1 == key)).map (·.2) :=
   findKey_spec w hl hv key
+
+/-- `getOrAddMember` on an object that already has a member with this key returns the value slot of the FIRST such
+    member and does not change the document (partial: the "key absent" branch, `addMember`, is only covered by
+    `appendPair_refines` for the linking step and by `C05.add_member_fail_clean` for its failures). -/
+theorem getOrAddMember_found_partial {d : Doc} {l : Loc} {h t k v : Nat} {key : List Byte} {linked : Bool}
+    (hv : d.get l = .obj h t) (hf : d.findKey l key = some (k, v)) :
+    d.getOrAddMember l key linked = (some v, d) := by
+  simp only [Doc.getOrAddMember, hv, hf]
 
 end C04
 
@@ -267,6 +418,12 @@ theorem s4 : StrOK e4 (e4.strRefs F3) :=
 example : WFG (e4.clearV (.slot 0)) F3 ∧ abs (e4.clearV (.slot 0)) = .arr [.null] := by
   obtain ⟨h1, _, h3⟩ := clearV_scalar w4 s4 loc0 (by rw [show e4.get (.slot 0) = .owned 0 from by decide +kernel]; exact fun h => h)
   exact ⟨h1, by rw [h3]; rfl⟩
+
+/-- `clearV_collection` applies to the root array of `["hi"]` (a collection holding a copied string): the document
+    becomes null, slot 0 is released, invariants kept -/
+example : WFG (e4.clearV .root) .nil ∧ abs (e4.clearV .root) = .null ∧ ¬ PL.live (e4.clearV .root).g (e4.clearV .root).pl 0 := by
+  obtain ⟨h1, _, h3, h4⟩ := clearV_collection w4 s4 (l := .root) trivial
+  exact ⟨h1, h3, h4 0 (by simp [layoutAt, F3, Forest.ids, Forest.keyL])⟩
 
 /-- `size_eq` applies to the root array of `["hi"]` -/
 example : ∃ xs, e4.toVal (e4.get .root) = .arr xs ∧ e4.size (e4.get .root) = xs.length :=
